@@ -60,7 +60,7 @@ class Flow:
                 i = idx[0]
                 if isinstance(st.value, (ast.Tuple, ast.List)) and len(st.value.elts) == len(elts):
                     return st.value.elts[i], st
-                if isinstance(st.value, ast.Call):
+                if isinstance(st.value, (ast.Call, ast.Name)):
                     sub = ast.Subscript(value=st.value, slice=ast.Constant(i), ctx=ast.Load())
                     ast.copy_location(sub, st.value)
                     ast.fix_missing_locations(sub)
@@ -89,6 +89,15 @@ class Flow:
                 return T(st, self.depth - 1).visit(clone(value))
 
             def visit_Lambda(self, n):
+                return n
+
+            def visit_Subscript(self, n):
+                n = self.generic_visit(n)
+                # (a, b, c)[k] -> the k-th element (a tuple held in a temporary and taken apart again)
+                if isinstance(n.value, (ast.Tuple, ast.List)) and isinstance(n.slice, ast.Constant) and isinstance(n.slice.value, int) \
+                        and not isinstance(n.slice.value, bool) and not any(isinstance(e, ast.Starred) for e in n.value.elts) \
+                        and -len(n.value.elts) <= n.slice.value < len(n.value.elts) and isinstance(n.ctx, ast.Load):
+                    return n.value.elts[n.slice.value]
                 return n
 
         new = T(at, depth).visit(clone(expr))
